@@ -35,7 +35,7 @@ def lit_si(h):
 
 def cxx(t):
     op = t[0]
-    if op == 'v': return t[1]
+    if op == 'v': return {'qn': 'q.get_num()', 'qd': 'q.get_den()', 'z': 'zz'}.get(t[1], t[1])      # qn / qd: references INTO the rational q; zz: an independent mpz_class
     if op == 'si': return lit_si(t[1])
     if op == 'ui': return f'{int(t[1], 16)}UL'
     if op == 'dd': return f'({t[1]})'
@@ -48,6 +48,7 @@ def cxx(t):
 
 INT_ROOT = {'sgn', 'cmp', '<', '>', '==', '!=', '<=', '>='}
 ENVZ = [('c', '-7', '5'), ('123456789abcdef0fedcba9876543210', '-ffffffffffffffff', '10000000000000000'), ('0', '1', '-deadbeefcafebabe0123456789'), ('-1', '8000000000000000', '7fffffffffffffff')]
+ENVZQ = ['9', '-ffffffffffffffffffff', '0', '123456789abcdef01']      # the independent integer operand of the mixed mpz/mpq trees, per value class
 ENVQ = [(('3', '4'), ('-5', '7')), (('123456789abcdef0123456789', '10000000000000001'), ('-1', 'ffffffffffffffff')), (('0', '1'), ('7', '2')), (('-22', '7'), ('1', '3'))]
 COMPOUND_Z = ['+', '-', '*', '&', '|', '^']
 
@@ -62,7 +63,8 @@ def main():
     depth = lambda t: 0 if t[0] in ('v', 'si', 'ui', 'dd') else 1 + max(depth(x) for x in t[1:])
     # the depth-1 trees (one operator, every leaf pair incl. the extreme built-in operands) are always all kept; sampling applies to depth >= 2
     if mz and len(tz) > mz: d1 = [t for t in tz if depth(t) <= 1 or (depth(t) == 2 and t[0] in ('/', '%') and depth(t[1]) == 0)]; rest = [t for t in tz if t not in d1]; tz = d1 + rng.sample(rest, min(len(rest), mz))
-    if mq and len(tq) > mq: d1 = [t for t in tq if depth(t) <= 1]; rest = [t for t in tq if t not in d1]; tq = d1 + rng.sample(rest, min(len(rest), mq))
+    mixed = lambda t: any(k in json.dumps(t) for k in ('"z"', '"qn"', '"qd"'))
+    if mq and len(tq) > mq: d1 = [t for t in tq if depth(t) <= 1 or mixed(t)]; rest = [t for t in tq if t not in d1]; tq = d1 + rng.sample(rest, min(len(rest), mq))
     os.makedirs(outdir, exist_ok=True)
     items = []      # (kind, cxx statement pieces)
     n = 0
@@ -77,7 +79,7 @@ def main():
     for t in tq:
         n += 1; root_int = t[0] in INT_ROOT
         items.append(('q', n, to_json(t), cxx(t), 'int' if root_int else 'tmp'))
-        if not root_int and n % 4 == 0: items.append(('q', n, to_json(t), cxx(t), 'q'))
+        if not root_int and (n % 4 == 0 or mixed(t)): items.append(('q', n, to_json(t), cxx(t), 'q'))      # mixed trees: always also with the target q (whose components are operands)
         if not root_int and n % 5 == 0:
             op = ['+', '-', '*'][n % 3]
             items.append(('q', n, [op, ['v', 'q'], to_json(t)], cxx(t), 'q' + op + '='))
@@ -88,6 +90,7 @@ def main():
 #include <string>
 #include "mpirxx.h"
 extern FILE *out;
+extern mpz_class zz;
 void ev_z(const char *tree, const char *tgt, int vc, const mpz_class &a0, const mpz_class &b0, const mpz_class &c0, const mpz_class &res);
 void ev_q(const char *tree, const char *tgt, int vc, const mpq_class &q0, const mpq_class &r0, const mpq_class &res);
 void set_env_z(int vc, mpz_class &a, mpz_class &b, mpz_class &c);
@@ -112,16 +115,16 @@ void set_env_q(int vc, mpq_class &q, mpq_class &r);
                     else: o.write(f'  {{ q {tgt[1:]} {expr}; ev_q("{js}", "{tgt}", vc, q0, r0, q); }}\n')
             o.write('}\n')
     with open(os.path.join(outdir, 'main.cc'), 'w') as o:
-        o.write(hdr.replace('extern FILE *out;', 'FILE *out;'))
+        o.write(hdr.replace('extern FILE *out;', 'FILE *out;').replace('extern mpz_class zz;', 'mpz_class zz;'))
         for ui in range(len(units)): o.write(f'void unit{ui}(int);\n')
         o.write('static std::string hx(const mpz_class &z) { return z.get_str(16); }\n')
         o.write('void ev_z(const char *tree, const char *tgt, int vc, const mpz_class &a0, const mpz_class &b0, const mpz_class &c0, const mpz_class &res) {\n'
                 '  fprintf(out, "{\\"e\\":\\"fn\\",\\"f\\":\\"cxx_z\\",\\"i\\":{\\"tree\\":%s,\\"tgt\\":\\"%s\\",\\"env\\":{\\"a\\":\\"%s\\",\\"b\\":\\"%s\\",\\"c\\":\\"%s\\"}},\\"o\\":{\\"v\\":\\"%s\\"}}\\n", tree, tgt, hx(a0).c_str(), hx(b0).c_str(), hx(c0).c_str(), hx(res).c_str()); }\n')
         o.write('void ev_q(const char *tree, const char *tgt, int vc, const mpq_class &q0, const mpq_class &r0, const mpq_class &res) {\n'
-                '  fprintf(out, "{\\"e\\":\\"fn\\",\\"f\\":\\"cxx_q\\",\\"i\\":{\\"tree\\":%s,\\"tgt\\":\\"%s\\",\\"env\\":{\\"q\\":[\\"%s\\",\\"%s\\"],\\"r\\":[\\"%s\\",\\"%s\\"]}},\\"o\\":{\\"n\\":\\"%s\\",\\"d\\":\\"%s\\"}}\\n", tree, tgt,'
-                ' hx(q0.get_num()).c_str(), hx(q0.get_den()).c_str(), hx(r0.get_num()).c_str(), hx(r0.get_den()).c_str(), hx(res.get_num()).c_str(), hx(res.get_den()).c_str()); }\n')
+                '  fprintf(out, "{\\"e\\":\\"fn\\",\\"f\\":\\"cxx_q\\",\\"i\\":{\\"tree\\":%s,\\"tgt\\":\\"%s\\",\\"env\\":{\\"q\\":[\\"%s\\",\\"%s\\"],\\"r\\":[\\"%s\\",\\"%s\\"],\\"z\\":[\\"%s\\",\\"1\\"],\\"qn\\":[\\"%s\\",\\"1\\"],\\"qd\\":[\\"%s\\",\\"1\\"]}},\\"o\\":{\\"n\\":\\"%s\\",\\"d\\":\\"%s\\"}}\\n", tree, tgt,'
+                ' hx(q0.get_num()).c_str(), hx(q0.get_den()).c_str(), hx(r0.get_num()).c_str(), hx(r0.get_den()).c_str(), hx(zz).c_str(), hx(q0.get_num()).c_str(), hx(q0.get_den()).c_str(), hx(res.get_num()).c_str(), hx(res.get_den()).c_str()); }\n')
         o.write('void set_env_z(int vc, mpz_class &a, mpz_class &b, mpz_class &c) { static const char *t[][3] = {' + ','.join('{"%s","%s","%s"}' % e for e in ENVZ) + '}; a.set_str(t[vc][0], 16); b.set_str(t[vc][1], 16); c.set_str(t[vc][2], 16); }\n')
-        o.write('void set_env_q(int vc, mpq_class &q, mpq_class &r) { static const char *t[][4] = {' + ','.join('{"%s","%s","%s","%s"}' % (e[0][0], e[0][1], e[1][0], e[1][1]) for e in ENVQ) + '}; q.get_num().set_str(t[vc][0], 16); q.get_den().set_str(t[vc][1], 16); r.get_num().set_str(t[vc][2], 16); r.get_den().set_str(t[vc][3], 16); }\n')
+        o.write('void set_env_q(int vc, mpq_class &q, mpq_class &r) { static const char *t[][4] = {' + ','.join('{"%s","%s","%s","%s"}' % (e[0][0], e[0][1], e[1][0], e[1][1]) for e in ENVQ) + '}; q.get_num().set_str(t[vc][0], 16); q.get_den().set_str(t[vc][1], 16); r.get_num().set_str(t[vc][2], 16); r.get_den().set_str(t[vc][3], 16); static const char *tz[] = {' + ','.join('"%s"' % e for e in ENVZQ) + '}; zz.set_str(tz[vc], 16); }\n')
         o.write('void conv_section(void);\nvoid stream_section(const char *);\nvoid mpf_section(void);\n')
         o.write('int main(int argc, char **argv) { out = fopen(argv[1], "w"); int nvc = atoi(argv[2]); if (!out) return 3;\n  for (int vc = 0; vc < nvc; vc++) {\n')
         for ui in range(len(units)): o.write(f'    fprintf(out, "{{\\"e\\":\\"reset\\",\\"drv\\":\\"cxx\\",\\"x\\":%d,\\"seed\\":\\"0\\"}}\\n", vc * 1000 + {ui}); unit{ui}(vc);\n')
